@@ -358,3 +358,26 @@ Theorem C03_node_count_canonical_order_matters :
   size_of (build_zbdd (0 :: 2 :: 1 :: 3 :: nil) (0 :: 2 :: 1 :: 3 :: nil) (lvl_fun (0 :: 2 :: 1 :: 3 :: nil) ex_pairs)) = Some 10%N.
 Proof. exact ex_order_matters. Qed.
 Print Assumptions C03_node_count_canonical_order_matters.
+
+(* what count_reach counts: the stored inner nodes and the terminals reachable from the edge, each once *)
+From OxiVerif Require Import DD.ReachSpec.
+Theorem C03_node_count_canonical_count_reach_spec : forall s, arity_ok s -> forall e,
+  exists (ns : list positive) (ts : list N),
+  NoDup ns /\ NoDup ts /\
+  (forall id, In id ns <-> reachable s (eref e :: nil) (RN id) /\ find_node s id <> None) /\
+  (forall t, In t ts <-> reachable s (eref e :: nil) (RT t)) /\
+  count_reach s e = N.of_nat (length ns + length ts).
+Proof. exact count_reach_spec. Qed.
+Print Assumptions C03_node_count_canonical_count_reach_spec.
+
+(* an iso that relates two roots is total and onto between the two reachable sub-diagrams, and single-valued *)
+Theorem C03_node_count_canonical_iso_reachable : forall s1 s2 R, iso s1 s2 R -> forall r1 r2, R r1 r2 ->
+  (forall x, reachable s1 (r1 :: nil) x -> exists y, reachable s2 (r2 :: nil) y /\ R x y) /\
+  (forall y, reachable s2 (r2 :: nil) y -> exists x, reachable s1 (r1 :: nil) x /\ R x y).
+Proof. exact iso_reachable. Qed.
+Print Assumptions C03_node_count_canonical_iso_reachable.
+
+Theorem C03_node_count_canonical_iso_functional : forall s1 s2 R, bisim s1 s2 R ->
+  forall x y y', R x y -> R x y' -> y = y'.
+Proof. exact bisim_functional. Qed.
+Print Assumptions C03_node_count_canonical_iso_functional.
